@@ -226,7 +226,13 @@ def handle_failed(run, ob, r, baseline, per_fn):
                                            'replay': path, 'note': out.get('detail', ''), 'input': True})
                     return
                 rp['kind'] = ob.kind
-    if r['status'] == 'sat' and r['cex'] and '_error' not in r['cex']:
+    if r['status'] == 'sat' and r['cex'] and '_error' not in r['cex'] and has_abstract(jsonable(r['cex'])) \
+            and getattr(c, 'native_adapter', None) is None:
+        # the counter-model assigns values of uninterpreted sorts (abstract objects, abstract strings): there is
+        # no concrete input to run; a bounded domain of the contract (below) may still find one
+        rp['inputs'] = jsonable(r['cex'])
+        rp['native'] = {'skipped': 'the counter-model contains abstract values without a concrete counterpart'}
+    elif r['status'] == 'sat' and r['cex'] and '_error' not in r['cex']:
         rp['inputs'] = jsonable(r['cex'])
         path = run.replay_path('cex')
         json.dump(rp, open(path, 'w'), indent=1)
@@ -266,6 +272,14 @@ def handle_failed(run, ob, r, baseline, per_fn):
         run.violations.append({'fid': ob.fid, 'clause': ob.clause, 'kind': ob.kind, 'replay': path,
                                'note': f'obligation `{ob.label}` (line {ob.lineno}) no longer '
                                        f'discharges: {r["status"]} {r["reason"]}', 'input': False})
+
+
+def has_abstract(v):
+    if isinstance(v, dict):
+        return 'opaque' in v or any(has_abstract(x) for x in v.values())
+    if isinstance(v, (list, tuple)):
+        return any(has_abstract(x) for x in v)
+    return isinstance(v, str) and (v.startswith('s_Str_val_') or '!val!' in v)
 
 
 def native_clause(detail, default):
